@@ -61,6 +61,50 @@ def git_check(lists, workdir):
     shutil.rmtree(root, ignore_errors=True)
     return bad
 
+def fault_pass(ctx, binary, work, lists):
+    """Single injected stat failures while walking with --gitignore: exit 0 must still mean 'exactly the non-excluded entries'."""
+    jobs = []
+    for li, l in enumerate(lists):
+        for drv in ("parfile", "parblock"):
+            for sysc in ("statx", "newfstatat"):
+                for when in range(1, 31, 2 if ctx.tier == "quick" else 1):
+                    jobs.append((li, l, drv, sysc, when))
+    def one(j):
+        li, l, drv, sysc, when = j
+        root = os.path.join(work, "f%d-%s-%s-%d" % (li, drv, sysc, when))
+        shutil.rmtree(root, ignore_errors=True); os.makedirs(root)
+        src = os.path.join(root, "src"); make_tree(src)
+        with open(os.path.join(src, ".gitignore"), "w") as f:
+            f.write("\n".join(render(p) for p in l["pats"]) + "\n")
+        rr = runner.run_xcp(binary, ["--driver", drv, "-r", "--gitignore", src, "dst"], cwd=root, timeout=60,
+                            strace={"out": root + ".st", "trace": sysc, "inject": ["%s:error=EIO:when=%d" % (sysc, when)]})
+        got = []
+        dst = os.path.join(root, "dst")
+        for d, ds, fs in os.walk(dst):
+            for x in ds + fs:
+                got.append(os.path.relpath(os.path.join(d, x), dst))
+        shutil.rmtree(root, ignore_errors=True)
+        try:
+            os.unlink(root + ".st")
+        except OSError:
+            pass
+        def comps(rel):
+            return [list(".g") if c == ".gitignore" else list(c) for c in rel.split("/")]
+        return {"id": "fault/%d/%s/%s/%d" % (li, drv, sysc, when), "pats": l["pats"], "obs": [comps(g) for g in sorted(got)], "gitignore": True, "_exit": rr.exit, "_got": sorted(got)}
+    res = runner.pmap(one, jobs)
+    ok0 = [r for r in res if r["_exit"] == 0]
+    if not ok0:
+        return
+    m = tlc.monitor("Trace_GI", "Trace_GI.cfg", [{a: b for a, b in x.items() if not a.startswith("_")} for x in ok0])
+    vs = [v for t, v in m.printed if t == "VERDICT"]
+    ctx.states += m.distinct; ctx.transitions += m.generated
+    for rec, v in zip(ok0, vs):
+        ctx.traces += 1; ctx.case(rec["id"], True)
+        if not v["ok"]:
+            ctx.violation("C17: %s: exit 0 but %d excluded entries were copied and %d non-excluded ones are missing: %s" % (rec["id"], v["extra"], v["missing"], rec["_got"]),
+                          {"kind": "c17-fault", "id": rec["id"], "got": rec["_got"]}, sig={"kind": "fault"})
+    ctx.notes["stat_fault_runs"] = len(res); ctx.notes["stat_fault_runs_exit0_judged"] = len(ok0)
+
 def run(ctx):
     binary = build.xcp()
     quick = ctx.tier == "quick"
@@ -129,6 +173,7 @@ def run(ctx):
                           (rec["_lines"], drv, spelling, flag, v["missing"], v["extra"], sorted(keep) if flag else "everything", rec["_got"], rec["_exit"]),
                           {"kind": "c17", "lines": rec["_lines"], "driver": drv, "spelling": spelling, "expected": sorted(keep), "got": rec["_got"]},
                           sig={"lines": "|".join(rec["_lines"]), "driver": drv})
+    fault_pass(ctx, binary, work, [l for l in sample if any(p["dir"] for p in l["pats"])][:6])
     ctx.sample({"gitignore_lines": res[0]["_lines"], "copied": res[0]["_got"]}); ctx.sample({"gitignore_lines": res[7]["_lines"], "copied": res[7]["_got"]})
     ctx.rule = ("pattern lists of <= 2 lines from {literal, *, ?, leading /, trailing /, !, s/t, **/s, s/**, a/**/b} over {a, b, .}, with comment and "
                 "blank lines interleaved, against a fixed 20-entry tree (nested directories, hidden files, the .gitignore itself, a link to a "
